@@ -29,7 +29,7 @@ public:
 struct Ev { double x1, x2; std::string tag; double aux; int rstep; };
 static std::vector<Ev> g_trace;
 static bool g_trace_on = false;
-static const size_t TRACE_MAX = 200000;
+static const size_t TRACE_MAX = 60000;   // a longer trace is truncated (the run is then counted, not compared)
 
 static double cb(double x1, double x2, const char* str, void* cookie) {
   // aux = engine's cvode_last_good_time at the moment of the rate evaluation (0 outside CVODE)
